@@ -56,6 +56,14 @@ type c11Mismatch struct {
 
 // one concurrent round; returns mismatches and the number of calls made
 func c11Round(rng *Rng, G, perG int, inject bool) (bad []c11Mismatch, calls int, lateTimeouts int) {
+	// a round takes a few hundred ms; a call that never returns (dead timeout clock, deadlock) must not hang the check
+	dog := time.AfterFunc(150*time.Second, func() {
+		buf := make([]byte, 1<<16)
+		buf = buf[:runtime.Stack(buf, true)]
+		fmt.Fprintf(os.Stderr, "c11: a round of %d goroutines did not finish within 150s (deadlock, or a timeout that never fires)\n%s\n", G, clip(string(buf), 6000))
+		os.Exit(3)
+	})
+	defer dog.Stop()
 	specs := c12Specs()
 	repls := c12Repls()
 	texts := make([]string, 10)
@@ -186,9 +194,9 @@ func clip(s string, n int) string {
 }
 
 func legC11Conc(c *Ctx) {
-	c.Rule("rounds of G in {2,8,32} goroutines x 24 (quick) / 120 (thorough) mixed calls (bool, find, find-all, replace with 40 replacements, replace-func, split, timed and stack-limited matches) on 6 shared Regexps (70%) and per-goroutine Regexps (30%), yields injected inside the library and between calls; expected = the same call on a fresh Regexp computed sequentially; non-trivial = a round (distinct by (G, round))")
+	c.Rule("rounds of G in {2,8,32} goroutines x 24 (quick) / 120 (thorough) mixed calls (bool, find, find-all, replace with 40 replacements, replace-func, split, timed and stack-limited matches) on 7 shared Regexps (70%) and per-goroutine Regexps (30%), yields injected inside the library and between calls; expected = the same call on a fresh Regexp computed sequentially; non-trivial = a round (distinct by (G, round))")
 	regexp2.SetTimeoutCheckPeriod(time.Millisecond)
-	rounds := c.N(10, 60)
+	rounds := c.N(16, 80)
 	perG := c.N(24, 120)
 	for _, G := range []int{2, 8, 32} {
 		for r := 0; r < rounds; r++ {
